@@ -55,7 +55,10 @@ SPECS = {
         Target("distributed_shampoo/utils/shampoo_hybrid_shard_distributor.py", **{**DISTRIBUTE, "qualname": "HybridShardDistributor._distribute_buffer_sizes"}, prefix="hybrid_",
                atoms=[("self._dist_group_size", "group_size", "Z")]),
     ]),
-    "C05": ("GenC05", "EquivC05.v", "", [Target(UTILS, "merge_small_dims")]),
+    "C05": ("GenC05", "EquivC05.v", "", [
+        Target(UTILS, "merge_small_dims"),
+        Target(UTILS, "multi_dim_split", types={"tensor": "view", "tuple[Tensor, ...]": "list view"}),
+    ]),
     "C04": ("GenC04", "EquivC04.v", "", [
         Target(UTILS, "compress_list", types={"Sequence[CompressListType]": "list Z", "tuple[CompressListType, ...]": "list Z"}),
         Target(UTILS, "generate_pairwise_indices"),
